@@ -15,6 +15,8 @@ def main():
     runs = {}
     for path in sys.argv[1:]:
         how = 'run on a snapshot of /repo by harness/ownmatrix*.sh via `vp run --with-repo` (log %s)' % os.path.basename(os.path.dirname(path))
+        if path.endswith('local_retests.log'):
+            how = 'applied to /repo by hand after a check was corrected (seeded/local_retests.log)'
         for l in open(path, errors='replace'):
             m = LINE.match(l.strip())
             if m:
